@@ -2,10 +2,10 @@ package props
 
 import (
 	"fmt"
-	"strconv"
 	"go/token"
 	"go/types"
 	"reflect"
+	"strconv"
 	"strings"
 
 	"golang.org/x/tools/go/ssa"
@@ -936,7 +936,6 @@ func paramIndex(fn *ssa.Function, pa *ssa.Parameter) int {
 	}
 	return 0
 }
-
 
 // namesValidated re-checks the precondition of the tabled argument for the
 // panics that depend on the shape of region names (findCommaFromEnd, the two
